@@ -23,7 +23,7 @@ from ...utils.time_service import TimeService
 from ..ca_basic_service.cam_transmission_management import CooperativeAwarenessMessage, GenerationDeltaTime
 from ...security.security_profiles import SecurityProfile
 from . import vam_constants
-from .vru_clustering import VBSClusteringManager
+from .vru_clustering import VBSClusteringManager, cluster_information_to_asn1
 
 
 @dataclass(frozen=True)
@@ -757,7 +757,9 @@ class VAMTransmissionManagement:
         if self.clustering_manager is not None:
             cluster_info = self.clustering_manager.get_cluster_information_container()
             if cluster_info is not None:
-                params["vruClusterInformationContainer"] = cluster_info
+                params["vruClusterInformationContainer"] = cluster_information_to_asn1(
+                    cluster_info
+                )
             cluster_op = self.clustering_manager.get_cluster_operation_container()
             if cluster_op is not None:
                 params["vruClusterOperationContainer"] = cluster_op
